@@ -4132,9 +4132,13 @@ impl ExecutionTimeout {
                 // Adjust the interval based on how much time elapsed in the previous interval
                 // compared to the next interval's target duration.
                 let elapsed = (now - self.last_check).as_secs_f64();
-                let interval_adjustment = next_interval_duration / elapsed;
-                self.interval_instructions =
-                    (self.interval_instructions as f64 * interval_adjustment) as usize;
+                // The clock might not have advanced since the last check (e.g. with a coarse
+                // clock), in which case the interval is left unchanged.
+                if elapsed > 0.0 {
+                    let interval_adjustment = next_interval_duration / elapsed;
+                    self.interval_instructions =
+                        (self.interval_instructions as f64 * interval_adjustment) as usize;
+                }
 
                 self.instructions_since_last_check = 0;
                 self.last_check = now;
